@@ -29,7 +29,7 @@ use arrow_buffer::{
     ScalarBuffer, ToByteSlice,
 };
 use arrow_data::transform::MutableArrayData;
-use arrow_data::{ArrayData, ByteView};
+use arrow_data::{ArrayData, ByteView, MAX_INLINE_VIEW_LEN};
 use arrow_schema::{ArrowError, DataType};
 use std::fmt::{Debug, Formatter};
 use std::hash::Hash;
@@ -756,7 +756,11 @@ impl<T: ByteViewType> ByteViewScalarImpl<T> {
                 // If the falsy buffers are empty, we can use the falsy view as it is, because the value
                 // is completely inlined. Otherwise, we have non-inlined values in the buffer, and we need
                 // to recalculate the falsy view
-                let view_falsy = if falsy_buffers.is_empty() {
+                let view_falsy = if falsy_buffers.is_empty()
+                    || (falsy_view as u32) <= MAX_INLINE_VIEW_LEN
+                {
+                    // an inline view holds data where a buffer index would be: it must not be rebased,
+                    // even when the scalar's array carries data buffers (e.g. a slice of a larger array)
                     falsy_view
                 } else {
                     let byte_view_falsy = ByteView::from(falsy_view);
